@@ -66,9 +66,10 @@ func EncodeJSONFile(path string, obj interface{}) (err error) {
 		return err
 	}
 	verifhook.Crash("jsonfile:after-close")
-	if err = os.Rename(tmp, path); err != nil {
-		return err
-	}
-	verifhook.Crash("jsonfile:after-rename")
-	return nil
+	defer func() {
+		if err == nil {
+			verifhook.Crash("jsonfile:after-rename")
+		}
+	}()
+	return os.Rename(tmp, path)
 }
